@@ -95,3 +95,18 @@ Proof.
 Qed.
 
 Definition nilb {A} (l : list A) : bool := match l with [] => true | _ => false end.
+
+(* insertion sort (stable); Python's sorted() on an injective key *)
+Fixpoint insert_by {A} (le : A -> A -> bool) (x : A) (l : list A) : list A :=
+  match l with
+  | [] => [x]
+  | y :: t => if le x y then x :: l else y :: insert_by le x t
+  end.
+Definition sort_by {A} (le : A -> A -> bool) (l : list A) : list A := fold_right (insert_by le) [] l.
+
+(* PositiveMap.elements enumerates in *bitwise* key order; Python code sorts ids, so the model
+   sorts the bindings numerically (ids are interned in string order by the harness). *)
+Definition sorted_elements {A} (m : pmap A) : list (positive * A) :=
+  sort_by (fun a b => Pos.leb (fst a) (fst b)) (PM.elements m).
+Definition sorted_vals {A} (m : pmap A) : list A := map snd (sorted_elements m).
+Definition sorted_keys {A} (m : pmap A) : list positive := map fst (sorted_elements m).
